@@ -32,7 +32,7 @@ Serialized serialize_msg(const MsgSpec &m) {
             while (pos < m.body.size()) {
                 size_t n = i < m.chunk_sizes.size() ? m.chunk_sizes[i] : m.body.size() - pos;
                 if (n == 0 || n > m.body.size() - pos) n = m.body.size() - pos;
-                o += strfmt("%zx", n);
+                o += m.chunk_fmt == 1 ? strfmt("%zX", n) : m.chunk_fmt == 2 ? strfmt("%0*zx", (int) (1 + (n + i) % 4), n) : strfmt("%zx", n);
                 if (i < m.chunk_ext.size()) o += m.chunk_ext[i];
                 o += "\r\n";
                 o += m.body.substr(pos, n);
@@ -213,6 +213,7 @@ static void set_body(Rng &r, const GenFeatures &f, MsgSpec &m, bool allow_close)
     if (allow_close && f.close_delim && k == 3) { m.framing = FR_CLOSE; return; }
     if (f.chunked && k < 7 && m.version == "HTTP/1.1") {
         m.framing = FR_CHUNKED;
+        if (r.chance(1, 3)) m.chunk_fmt = (int) r.range(1, 2);
         size_t left = m.body.size();
         int style = (int) r.below(4);
         while (left > 0) {
@@ -268,6 +269,7 @@ Script random_script(Rng &r, const GenFeatures &f, int n, int id_base) {
         }
         bool absolute = f.absolute_uri && r.chance(1, 5);
         int port = r.chance(1, 3) ? (int) r.range(1, 65535) : -1;
+        if (port >= 0 && r.chance(1, 3)) { static const int EDGE[] = {1, 9, 10, 80, 99, 100, 443, 999, 1000, 8080, 9999, 10000, 65534, 65535}; port = EDGE[r.below(sizeof EDGE / sizeof *EDGE)]; }   // the ends of the range and every digit count
         std::string authority = host + (port >= 0 ? strfmt(":%d", port) : std::string());
         q.target = (absolute ? "http://" + authority : std::string()) + path + (query.empty() ? "" : "?" + query);
         add_random_headers(r, f, q, false);
